@@ -95,6 +95,7 @@ KindsAll == {"pipe", "valve", "flow_control", "press_control", "pump", "heat_exc
 KindsCore == {"pipe", "valve", "flow_control", "press_control", "heat_consumer", "circ_pump_pressure"}
 KindsCtl == {"pipe", "press_control", "flow_control", "circ_pump_mass"}
 NKindsAll == {<<"ext_grid", "p">>, <<"ext_grid", "t">>, <<"sink", "">>}
+NKindsTherm == {<<"ext_grid", "p">>, <<"ext_grid", "t">>, <<"ext_grid", "pt">>, <<"sink", "">>}
 NKindsCore == {<<"ext_grid", "p">>, <<"sink", "">>}
 
 (* ---- emission ---- *)
